@@ -162,5 +162,5 @@ func (c09HTTP) SelfDeadlock(stack string) (class, detail string) {
 }
 
 func TestVerifC09HTTP1(t *testing.T) {
-	c09.Main(t, c09HTTP{}, 4, 5)
+	c09.Main(t, c09HTTP{}, 7, 10)
 }
